@@ -3,6 +3,8 @@
  * memcpy (symbolic length into an 8 KiB field) is replaced by the contract of DESIGN 2.4; its
  * requires clause (source readable, destination writable for n bytes) is checked at both call sites. */
 #define EL_MEMCPY
+#define EL_COUNT_BITS
+#define EL_LOG_COUNT_BITS
 #include "assumed_elements.h"
 #include "src/secp256k1.c"
 #include "post.h"
@@ -18,8 +20,13 @@ void h_sjp_parse(void) {
     __CPROVER_assume(inputlen <= MAXLEN);
     INPUT_BUF(inw, input, inputlen, 32);
     verif_ctx_init(&ctx);
-    g_mc_idx = k;
-    ret = secp256k1_surjectionproof_parse(&ctx, use_proof ? &proof : NULL, use_input ? input : NULL, inputlen);
+    g_mc_idx = k; g_cb_n = 0; g_cb_expect = &input[2];
+    /* one call site per NULL pattern: keeps every pointer a constant for the verifier (a conditional
+     * pointer as memcpy destination costs 7x) */
+    if (use_proof && use_input) ret = secp256k1_surjectionproof_parse(&ctx, &proof, input, inputlen);
+    else if (use_proof) ret = secp256k1_surjectionproof_parse(&ctx, &proof, NULL, inputlen);
+    else if (use_input) ret = secp256k1_surjectionproof_parse(&ctx, NULL, input, inputlen);
+    else ret = secp256k1_surjectionproof_parse(&ctx, NULL, NULL, inputlen);
     WITNESS_BUF(inw, input, inputlen, 32);
     __CPROVER_assert(ret == 0 || ret == 1, "C11 parse: returns 0 or 1");
     __CPROVER_assert(g_error == 0, "C11 parse: error callback never invoked");
@@ -32,12 +39,14 @@ void h_sjp_parse(void) {
             s_nb = (s_n + 7) / 8;
             if (s_n <= 256 && inputlen >= 2 + s_nb) {
                 int pad_ok = 1;
-                /* m = number of set bits in the ceil(n/8)-byte bitmap; bits at positions >= n must be zero */
-                for (i = 0; i < 32; i++) if (i < s_nb) {
-                    unsigned b;
-                    for (b = 0; b < 8; b++) s_pop += (input[2 + i] >> b) & 1;
-                }
+                /* bits at positions >= n in the last bitmap byte must be zero */
                 if (s_n % 8 != 0 && (input[2 + s_nb - 1] >> (s_n % 8)) != 0) pad_ok = 0;
+                /* m = number of set bits of the ceil(n/8)-byte bitmap: the value of count_bits_set(bitmap, ceil(n/8)),
+                 * which unit C11.count_bits proves to be the population count */
+                if (pad_ok) {
+                    __CPROVER_assert(g_cb_n == 1 && g_cb_match && g_cb_count == s_nb, "C11 parse: the bit count is taken over exactly the ceil(n/8) bitmap bytes");
+                    s_pop = g_cb_ret;
+                }
                 s_ok = pad_ok && inputlen == 2 + s_nb + 32 * (1 + s_pop);
             }
         }
